@@ -6,16 +6,17 @@ from ..diff import Differ, Abandon
 from ..util import Result
 
 
-def worker(wseed, prop, genname, budget_s, hist_len, binary, check_every=0, max_cmds=None, seeder="pool"):
+def worker(wseed, prop, genname, budget_s, hist_len, binary, check_every=0, max_cmds=None, seeder="pool",
+           extra_env=None, label=None):
     import importlib
     rng = util.rng_for(wseed, prop)
     res = Result()
     known = util.Known()
     genmod = importlib.import_module("fv." + genname.split(":")[0])
     genfn = getattr(genmod, genname.split(":")[1])
-    srv = server.Server(binary).start()
+    srv = server.Server(binary, extra_env=extra_env, start_timeout=60.0 if label else 20.0).start()
     try:
-        d = Differ(srv, res, prop, known)
+        d = Differ(srv, res, prop, known, timeout=30.0 if label else 10.0)
         t_end = time.time() + budget_s
         histories = 0
         while time.time() < t_end and (max_cmds is None or res.evaluations < max_cmds):
@@ -42,12 +43,28 @@ def worker(wseed, prop, genname, budget_s, hist_len, binary, check_every=0, max_
         res.count("histories", histories)
     finally:
         res.count("server_starts", srv.starts)
+        if label:
+            from .. import sanitize
+            res.count("%s_evaluations" % label, res.evaluations)
+            res.count("%s_histories" % label, res.extra.get("histories", 0))
+            sanitize.record(res, prop, srv.stderr_text(), label)
         srv.cleanup()
     return res
 
 
+def sanitizer_pass(prop, genname, seed, budget_s, hist_len, check_every, profile="asan"):
+    """Thorough tier: the same generator and oracles against a sanitizer build."""
+    from .. import sanitize
+    binary, env, bt = sanitize.build(profile)
+    seeds = [seed * 1000 + 500 + i for i in range(util.jobs())]
+    res = util.run_workers(worker, seeds, dict(prop=prop, genname=genname, budget_s=budget_s, hist_len=hist_len,
+                                               binary=binary, check_every=check_every, extra_env=env, label=profile))
+    res.extra["%s_build_s" % profile] = round(bt, 1)
+    return res
+
+
 def run(prop, tier, genname, rule, budget_quick=20, budget_thorough=240, hist_len=(20, 200), check_every=0,
-        assumptions=None, extra_fn=None):
+        assumptions=None, extra_fn=None, asan_budget=90):
     t0 = time.time()
     seed = util.seed_from_env()
     binary, bt = server.build("dev")
@@ -57,6 +74,8 @@ def run(prop, tier, genname, rule, budget_quick=20, budget_thorough=240, hist_le
     res = util.run_workers(worker, seeds, dict(prop=prop, genname=genname, budget_s=budget, hist_len=hist_len,
                                                binary=binary, check_every=check_every))
     res.extra["build_s"] = round(bt, 1)
+    if tier == "thorough" and asan_budget:
+        res.merge(sanitizer_pass(prop, genname, seed, asan_budget, hist_len, check_every))
     if extra_fn is not None:
         res.merge(extra_fn(tier, seed))
     return util.finish(prop, tier, seed, "exploration", res, rule, t0, assumptions=assumptions or [
